@@ -57,8 +57,16 @@ REQUIRED_THEOREMS = [
     "cylLaplace_uniform_away_from_axis", "cylVectorLaplace_uniform_away_from_axis",
     "cylVectorLaplace_r_error_eq", "cylVectorLaplace_first_order_at_axis_smooth",
     "cylVectorLaplace_first_order_at_axis_sharp",
+    # polynomial exactness with explicit remainders, Cartesian any number of axes / 3-d, cylindrical (Props/C01Gap.lean)
+    "d2_line_poly", "d1_central_line_poly", "d1_forward_line_poly", "d1_backward_line_poly",
+    "cartLaplace_poly_nd", "cartGradient_poly_nd", "cartGradient_onesided_poly_nd", "cartDivergence_poly_nd",
+    "cartVectorGradient_poly_nd", "cartVectorLaplace_poly_nd", "cartTensorDivergence_poly_nd",
+    "cartLaplace_poly_3d", "cartGradient_poly_3d", "cartDivergence_poly_3d", "cartVectorGradient_poly_3d",
+    "cartVectorLaplace_poly_3d", "cartTensorDivergence_poly_3d", "cartLaplace_poly_3d_mixed",
+    "cylGradient_poly", "cylVectorGradient_poly", "cylTensorDivergence_poly", "cylVectorLaplace_components_poly",
+    "cylVectorLaplace_z_even_uniform", "cylLaplace_even_uniform", "cylVectorLaplace_phi_axis_first_order",
 ]
-EXTRA_PROP_FILES = ["C01Taylor", "C01Smooth", "C01SmoothB", "C01Axis", "C01Nine"]
+EXTRA_PROP_FILES = ["C01Taylor", "C01Smooth", "C01SmoothB", "C01Axis", "C01Nine", "C01Gap"]
 RULE = ("matrix leg: seed-derived grids of the four stencil families (Cartesian 1-3 axes incl. UnitGrid, polar, "
         "spherical, cylindrical; 1-4 cells per axis, anisotropic dyadic spacings, with/without hole) x every registered "
         "operator x every documented option (central/forward/backward, conservative or not, central flag) x route; "
